@@ -541,8 +541,8 @@ MANIFEST = dict(
     text="PARTIAL. Proved for all inputs (coq/Props/C05.v, closed under the global context): sublist, substring, insert before, remove and the numeric filter never panic, give the same answer in "
          "the debug and the release build and only use indexes inside the collection, for every length, position and count; years-and-months duration literals never overflow (any digit groups); "
          "the for/some/every odometer terminates for every list of ranges (any isize bounds, either direction) and lists, makes exactly the product-many passes and visits every combination once; "
-         "every table index of the LALR driver is inside its table for all states x tokens and rules x states of the current lalr.rs. The pinned code is refuted by witnesses (4 fixed defects + 1 fixed under C08). "
-         "Not provable in this model and therefore only observed: stack depth, allocator, regex engine, chrono/chrono-tz, the decNumber C kernel, LR-loop termination. These are covered by the totality run: "
+         "the LALR driver loop over the current lalr.rs tables never indexes a table out of bounds for any token sequence and any number of steps (single-step sweeps over all states x tokens and rules x states, lifted by induction over the run). The pinned code is refuted by witnesses (4 fixed defects + 1 fixed under C08). "
+         "Not provable in this model and therefore only observed: stack depth, allocator, regex engine, chrono/chrono-tz, the decNumber C kernel, LR-loop termination and LR stack depth. These are covered by the totality run: "
          "~45k (quick) inputs x 2 builds over 7 parser entry points, each in an 8 MiB-stack thread with catch_unwind, a wall-clock limit and process-death detection.",
     note='Trusted: Coq kernel + vm_compute, hand-written model of core.rs / builders.rs / iterations.rs / ym_duration.rs (correspondence-checked in both builds), lalr2coq translators, harness dv guard. '
          'A panic, abort, stack overflow or hang of any generated input in either build is a VIOLATION with the input as replay.')
